@@ -31,7 +31,7 @@ impl Property for Prop {
         "C04"
     }
     fn rule(&self) -> &'static str {
-        "exhaustive: every lock-step history of the given depth (quick 4, thorough 5) over a 34-operation alphabet: encap fitting / fragmenting / failing (too small) for labels {A6,B6,C3,D3,broadcast,explicit re-use}; encap_ext, PDU-too-long and bad-protocol-type failures for {A6,C3,broadcast}; zero label; encap_frag continuation of the oldest pending train; reset of both sides; disable; enable; enable_max(1/2); each produced packet is fed to the receiver at once; key = first two operations. random: seeded histories of 50..2000 operations. rxstreams: traffic recorded from a random history, then mutated (drops, duplicates, swaps, byte corruption, junk and padding insertion, resets at random points) and fed to a fresh receiver under the receiver-only clause. Non-trivial = a history in which the receiver resolved at least one re-use label or delivered at least one PDU; fingerprint = hash of the operation sequence / mutated stream."
+        "exhaustive: every lock-step history of the given depth (quick 4, thorough 5) over a 34-operation alphabet: encap fitting / fragmenting / failing (too small) for labels {A6,B6,C3,D3,broadcast,explicit re-use}; encap_ext, PDU-too-long and bad-protocol-type failures for {A6,C3,broadcast}; zero label; encap_frag continuation of the oldest pending train; reset of both sides; disable; enable; enable_max(1/2); each produced packet is fed to the receiver at once; key = first two operations. random: seeded histories of 50..2000 operations. rxstreams: traffic recorded from a random history, then mutated (drops, duplicates, swaps, byte corruption, junk and padding insertion, resets at random points) and fed to a fresh receiver (half of them with scarce storage, so that packets rejected for lack of storage sit between label-carrying and re-use packets) under the receiver-only clause. Non-trivial = a history in which the receiver resolved at least one re-use label or delivered at least one PDU; fingerprint = hash of the operation sequence / mutated stream."
     }
     fn gens(&self, cx: &Cx) -> Vec<Gen> {
         let a = alphabet_c04().len() as u64;
@@ -138,7 +138,10 @@ impl Property for Prop {
                     }
                 }
                 let table = MandTable::none();
-                let mut dec = plain_dec(4, 64, 6, 64, table.clone());
+                // storage is sometimes scarce: packets rejected for lack of storage sit between a
+                // label-carrying packet and a re-use packet
+                let scarce = rng.chance(1, 2);
+                let mut dec = plain_dec(4, 64, if scarce { 1 } else { 6 }, 64, table.clone());
                 let mut rx = RxSpec::new(table);
                 let mut resolved = 0u64;
                 for (i, p) in stream.iter().enumerate() {
@@ -155,8 +158,16 @@ impl Property for Prop {
                     }
                     rx.observe(p, &res, RX_C04, "rxstream", rep, &|| format!("{} step={}", replay_s, i));
                     resolved += rep.get("rx.c04.reuse-resolved-ok") - before;
+                    if let Ok(Err((dvb_gse_rust::gse_decap::DecapError::ErrorMemory(_), _))) = &res {
+                        rep.count("c04.rxstreams.rejected-by-memory");
+                    }
                     if let Ok(Ok((dvb_gse_rust::gse_decap::DecapStatus::CompletedPkt(b, _), _))) = res {
-                        let _ = dec.provision_storage(b);
+                        if !scarce || rng.chance(1, 2) {
+                            let _ = dec.provision_storage(b);
+                        }
+                    }
+                    if scarce && rng.chance(1, 3) {
+                        let _ = dec.provision_storage(vec![0u8; 64].into_boxed_slice());
                     }
                 }
                 rep.count("c04.rxstreams");
@@ -171,7 +182,7 @@ impl Property for Prop {
         }
     }
     fn floors(&self, _cx: &Cx, rep: &mut Report) {
-        for k in ["c04.deliveries", "c04.substitutions", "c04.failed-calls", "rx.c04.reuse-resolved-ok"] {
+        for k in ["c04.deliveries", "c04.substitutions", "c04.failed-calls", "rx.c04.reuse-resolved-ok", "c04.rxstreams.rejected-by-memory"] {
             if rep.get(k) == 0 {
                 rep.floors_missing.push(format!("C04 floor: counter {} is 0", k));
             }
